@@ -350,25 +350,63 @@ func dbExtra(d *db, op simrt.Op) bool {
 		}
 	case "topn": // S=[index,field,filter] I=[node,n,ids...]
 		d.checkTopN(op)
+	case "topnn": // S=[index,field,filter] I=[node,n]: TopN without ids on a field whose cache holds every row
+		d.checkTopNN(op)
+	case "nodedown": // I=[k]: node k becomes unreachable (the process keeps running); reads only until "nodeup"
+		var cands []*simNode
+		for _, nd := range d.cl.nodes {
+			if nd.opened && !nd.gone {
+				cands = append(cands, nd)
+			}
+		}
+		if len(cands) < 2 || d.cl.replicas < 2 || d.downNode != nil {
+			return true
+		}
+		nd := cands[int(I[0])%len(cands)]
+		d.cl.net.SetDown(nd.host, true)
+		nd.gone = true // not used as coordinator by the client while it is down
+		d.downNode = nd
+		d.c.Probe("node-down-during-reads")
+	case "nodeup":
+		if d.downNode != nil {
+			d.cl.net.SetDown(d.downNode.host, false)
+			d.downNode.gone = false
+			d.downNode = nil
+		}
 	default:
 		return false
 	}
 	return true
 }
 
-type gcKey struct{ a, b uint64 }
+type gcKey [3]uint64
 
+// checkGroupBy: S=[index,f1,f2,filter,(f3)] I=[node,limit,offset,pagemode]. Up to three fields;
+// page modes: 0 one call with limit/offset, 1 pages by limit+offset, 2 pages by previous=.
 func (d *db) checkGroupBy(op simrt.Op) {
 	S, I := op.S, op.I
 	ix := d.m.idx[S[0]]
 	if ix == nil {
 		return
 	}
-	f1, f2 := ix.fields[S[1]], ix.fields[S[2]]
-	if f1 == nil || (f1.typ != "set" && f1.typ != "mutex") {
+	names := []string{S[1], S[2]}
+	if len(S) > 4 {
+		names = append(names, S[4])
+	}
+	var fs []*dbField
+	for _, n := range names {
+		f := ix.fields[n]
+		if f == nil || (f.typ != "set" && f.typ != "mutex") {
+			if len(fs) == 0 {
+				return
+			}
+			continue
+		}
+		fs = append(fs, f)
+	}
+	if len(fs) == 0 {
 		return
 	}
-	two := f2 != nil && (f2.typ == "set" || f2.typ == "mutex")
 	now := time.Now()
 	ftxt, fe := filterArg(S[3])
 	var filt map[uint64]bool
@@ -385,43 +423,56 @@ func (d *db) checkGroupBy(op simrt.Op) {
 		n uint64
 	}
 	var want []gc
-	for r1, m1 := range f1.bits {
-		if !two {
-			n := uint64(0)
-			for c := range m1 {
-				if filt == nil || filt[c] {
-					n++
-				}
+	var rec func(level int, key gcKey, cols map[uint64]bool)
+	rec = func(level int, key gcKey, cols map[uint64]bool) {
+		if level == len(fs) {
+			if len(cols) > 0 {
+				want = append(want, gc{key, uint64(len(cols))})
 			}
-			if n > 0 {
-				want = append(want, gc{gcKey{r1, 0}, n})
-			}
-			continue
+			return
 		}
-		for r2, m2 := range f2.bits {
-			n := uint64(0)
-			for c := range m1 {
-				if m2[c] && (filt == nil || filt[c]) {
-					n++
+		for r, m := range fs[level].bits {
+			next := map[uint64]bool{}
+			for c := range m {
+				if level == 0 {
+					if filt == nil || filt[c] {
+						next[c] = true
+					}
+				} else if cols[c] {
+					next[c] = true
 				}
 			}
-			if n > 0 {
-				want = append(want, gc{gcKey{r1, r2}, n})
+			if len(next) == 0 {
+				continue
 			}
+			k := key
+			k[level] = r
+			rec(level+1, k, next)
 		}
 	}
+	rec(0, gcKey{}, nil)
 	sort.Slice(want, func(i, j int) bool {
-		if want[i].k.a != want[j].k.a {
-			return want[i].k.a < want[j].k.a
+		for l := 0; l < 3; l++ {
+			if want[i].k[l] != want[j].k[l] {
+				return want[i].k[l] < want[j].k[l]
+			}
 		}
-		return want[i].k.b < want[j].k.b
+		return false
 	})
-	children := "Rows(field=" + f1.name + ")"
-	if two {
-		children += ", Rows(field=" + f2.name + ")"
+	childrenWith := func(prev *gcKey) string {
+		var cs []string
+		for l, f := range fs {
+			c := "Rows(field=" + f.name
+			if prev != nil {
+				c += fmt.Sprintf(", previous=%d", prev[l])
+			}
+			cs = append(cs, c+")")
+		}
+		return strings.Join(cs, ", ")
 	}
-	run := func(extra string) ([]gc, string, bool) {
-		q := "GroupBy(" + children
+	children := childrenWith(nil)
+	run := func(ch, extra string) ([]gc, string, bool) {
+		q := "GroupBy(" + ch
 		if fe != nil {
 			q += ", filter=" + ftxt
 		}
@@ -438,9 +489,11 @@ func (d *db) checkGroupBy(op simrt.Op) {
 		}
 		var out []gc
 		for _, g := range gcs {
-			k := gcKey{a: g.Group[0].RowID}
-			if len(g.Group) > 1 {
-				k.b = g.Group[1].RowID
+			var k gcKey
+			for l := range g.Group {
+				if l < 3 {
+					k[l] = g.Group[l].RowID
+				}
 			}
 			out = append(out, gc{k, g.Count})
 		}
@@ -476,7 +529,7 @@ func (d *db) checkGroupBy(op simrt.Op) {
 				w = w[:limit]
 			}
 		}
-		got, q, ok := run(extra)
+		got, q, ok := run(children, extra)
 		if !ok {
 			return
 		}
@@ -488,8 +541,8 @@ func (d *db) checkGroupBy(op simrt.Op) {
 			limit = 1
 		}
 		var all []gc
-		for page := int64(0); page < 40; page++ {
-			got, _, ok := run(fmt.Sprintf(", limit=%d, offset=%d", limit, page*limit))
+		for page := int64(0); page < int64(len(want))+10; page++ {
+			got, _, ok := run(children, fmt.Sprintf(", limit=%d, offset=%d", limit, page*limit))
 			if !ok {
 				return
 			}
@@ -504,8 +557,111 @@ func (d *db) checkGroupBy(op simrt.Op) {
 		if !eq(all, want) {
 			d.fail("groupby-paging", "GroupBy(%s) paged by limit=%d/offset on node %d concatenates to %v want %v", children, limit, d.node(I[0]), all, want)
 		}
+	default: // pages by previous= (the last group of the page before) must concatenate to the unpaged result
+		if limit <= 0 {
+			limit = 1
+		}
+		var all []gc
+		var prev *gcKey
+		for page := 0; page < len(want)+10; page++ {
+			got, _, ok := run(childrenWith(prev), fmt.Sprintf(", limit=%d", limit))
+			if !ok {
+				return
+			}
+			if len(got) == 0 {
+				break
+			}
+			all = append(all, got...)
+			k := got[len(got)-1].k
+			prev = &k
+			if len(all) > len(want)+5 {
+				break
+			}
+		}
+		if !eq(all, want) {
+			d.fail("groupby-paging", "GroupBy(%s) paged by limit=%d and previous= on node %d concatenates to %v want %v", children, limit, d.node(I[0]), all, want)
+		}
 	}
 	d.c.Probe("groupby-checked")
+}
+
+// checkTopNN: TopN(field, n=N) (optionally with a filter row) when every row of the field fits
+// in its cache and the caches were just recalculated: the N largest counts, in non-increasing
+// order, each pair carrying the exact count of its row (rows with equal counts in any order).
+func (d *db) checkTopNN(op simrt.Op) {
+	S, I := op.S, op.I
+	ix, f := d.lookup(S)
+	if f == nil || f.typ != "set" || f.cacheType != pilosa.CacheTypeRanked || f.cacheSize < 50000 || d.downNode != nil {
+		return // (with a node unreachable the recalculation request cannot be broadcast)
+	}
+	now := time.Now()
+	ftxt, fe := filterArg(S[2])
+	var filt map[uint64]bool
+	if fe != nil {
+		var err error
+		ix.shiftCrossed = false
+		if filt, err = ix.eval(fe, now); err != nil || ix.shiftCrossed {
+			return
+		}
+	}
+	for _, nd := range d.cl.nodes {
+		if nd.opened && !nd.gone {
+			if err := nd.api.RecalculateCaches(context.Background()); err != nil {
+				d.fail("recalc-error", "%v", err)
+				return
+			}
+		}
+	}
+	counts := map[uint64]uint64{}
+	var sorted []uint64
+	for r, m := range f.bits {
+		n := uint64(0)
+		for c := range m {
+			if filt == nil || filt[c] {
+				n++
+			}
+		}
+		if n > 0 {
+			counts[r] = n
+			sorted = append(sorted, n)
+		}
+	}
+	sort.Slice(sorted, func(i, j int) bool { return sorted[i] > sorted[j] })
+	n := int(I[1])
+	if n <= 0 {
+		n = 1
+	}
+	if n < len(sorted) {
+		sorted = sorted[:n]
+	}
+	q := "TopN(" + f.name
+	if fe != nil {
+		q += ", " + ftxt
+	}
+	q += fmt.Sprintf(", n=%d)", n)
+	res, err := d.query(d.node(I[0]), ix.name, q)
+	if err != nil {
+		d.fail("query-error", "%s: %v", q, err)
+		return
+	}
+	pairs, ok := res[0].([]pilosa.Pair)
+	if !ok {
+		d.fail("query-type", "%s returned %T", q, res[0])
+		return
+	}
+	if len(pairs) != len(sorted) {
+		d.fail("topn-n", "%s on node %d = %v: %d rows, want %d (largest counts %v)", q, d.node(I[0]), pairs, len(pairs), len(sorted), sorted)
+		return
+	}
+	seen := map[uint64]bool{}
+	for i, p := range pairs {
+		if p.Count != sorted[i] || counts[p.ID] != p.Count || seen[p.ID] {
+			d.fail("topn-n", "%s on node %d = %v: entry %d is row %d with count %d; the row holds %d and the largest counts are %v", q, d.node(I[0]), pairs, i, p.ID, p.Count, counts[p.ID], sorted)
+			return
+		}
+		seen[p.ID] = true
+	}
+	d.c.Probe("topn-n-checked")
 }
 
 func (d *db) checkTopN(op simrt.Op) {
